@@ -536,18 +536,6 @@ theorem rewrite_nil_condition_guard :
     (rewriteSlot idRewriter sRwCond none).isPanic = true ∧ rewriteCondition idRewriter none = .ok none := by
   exact ⟨rfl, rfl⟩
 
-/-- A rewriter that breaks the contract at one kind: nodes of kind `k` are answered with a
-`*Target`, every other node with itself. -/
-def breakAt (k : Checked.Kind) : Checked.Node → Checked.Node :=
-  fun n => if n.kind = k then .target {} else n
-
-/-- A rewriter that deletes variable references by answering nil — legal for the callback of
-`RewriteExpr`, which checks for nil, but not for a `Rewriter`. -/
-def dropVarRefs : Checked.Node → Checked.Node :=
-  Checked.exprOptRewriter fun e => match e with
-    | .varRef .. => none
-    | e => some e
-
 private def emptySelect : SelectStmt := default
 private def selectWhere (c : Expr) : SelectStmt :=
   .mk [] none [] [] (some c) [] 0 0 0 0 false .null .none none [] false false [] false
